@@ -15,6 +15,7 @@ import (
 	"encoding/json"
 	"fmt"
 	"math"
+	"os"
 	"sort"
 	"strconv"
 	"strings"
@@ -112,7 +113,40 @@ func TestVerifE7Latency(t *testing.T) {
 	}
 	// values, not shapes (floats are outside the model): a latency value near the top of float64 overflows Add's
 	// `delta * count` to +Inf, which encoding/json refuses to encode - the handler answers 500 (audit 7, C6)
-	for _, v := range []string{"1500000", "1.7e308"} {
+	// the cases: two built-in ones plus every `latval <value> <count>` line of the replay files named by
+	// VERIF_LATVAL_FILES (the committed replay of the open finding view:latency-overflow-500, passed by props/C18.py)
+	latvals := [][2]string{{"1500000", "2"}, {"1.7e308", "2"}}
+	for _, fn := range strings.Split(os.Getenv("VERIF_LATVAL_FILES"), ":") {
+		if fn == "" {
+			continue
+		}
+		raw, err := os.ReadFile(fn)
+		if err != nil {
+			t.Fatalf("latval replay file %s: %v", fn, err)
+		}
+		for _, l := range strings.Split(string(raw), "\n") {
+			f := strings.Fields(l)
+			if len(f) != 3 || f[0] != "latval" {
+				continue
+			}
+			if _, err := strconv.ParseFloat(f[1], 64); err != nil {
+				t.Fatalf("latval replay file %s: bad value in %q", fn, l)
+			}
+			if _, err := strconv.Atoi(f[2]); err != nil {
+				t.Fatalf("latval replay file %s: bad count in %q", fn, l)
+			}
+			dup := false
+			for _, c := range latvals {
+				dup = dup || c == [2]string{f[1], f[2]}
+			}
+			if !dup {
+				latvals = append(latvals, [2]string{f[1], f[2]})
+			}
+			hist["latval:from-file"]++
+		}
+	}
+	for _, vc := range latvals {
+		v, cnt := vc[0], vc[1]
 		impl := func() (out string) {
 			defer func() {
 				if r := recover(); r != nil {
@@ -120,7 +154,7 @@ func TestVerifE7Latency(t *testing.T) {
 				}
 			}()
 			var c clusterinfo.ChannelStats
-			js := `{"channel_name":"c","e2e_processing_latency":{"count":2,"percentiles":[{"quantile":0.99,"value":` + v + `}]}}`
+			js := `{"channel_name":"c","e2e_processing_latency":{"count":` + cnt + `,"percentiles":[{"quantile":0.99,"value":` + v + `}]}}`
 			if err := json.Unmarshal([]byte(js), &c); err != nil {
 				return "decode-error"
 			}
@@ -131,7 +165,7 @@ func TestVerifE7Latency(t *testing.T) {
 			}
 			return "marshal-ok"
 		}()
-		out.Case("latval "+v+" 2", impl)
+		out.Case("latval "+v+" "+cnt, impl)
 		hist["latval:"+strings.Fields(impl)[0]]++
 	}
 	n := vfEnvInt("VERIF_N", 300)
